@@ -668,8 +668,67 @@ pub fn record_net(seed: u64, tier: &str, trace: &mut Vec<Value>, rep: &mut Repor
         let depth = rng.range(1, 4) as usize;
         let mut accepted = 0usize;
         let mut attempts = 0;
+        let mut has_block = false;
         while accepted < depth && attempts < 12 {
             attempts += 1;
+            // sometimes a feedback block whose layers preserve the current shape (flat: dense n -> n; spatial: 3x3, padding 1)
+            if rng.below(5) == 0 && out.iter().product::<usize>() <= 64 {
+                let flat_in = out.len() == 1;
+                let nitems = rng.range(1, 2) as usize;
+                let items: Vec<Value> = (0..nitems)
+                    .map(|_| {
+                        let act = if rng.below(2) == 0 { "linear" } else { "relu" };
+                        if flat_in {
+                            json!({"kind": "dense", "hp": {"f": out[0], "kh": 1, "kw": 1, "sh": 1, "sw": 1, "ph": 0, "pw": 0, "dh": 1, "dw": 1, "act": act, "bias": rng.below(2) == 0}})
+                        } else {
+                            let kind = if rng.below(2) == 0 { "conv" } else { "deconv" };
+                            json!({"kind": kind, "hp": {"f": out[0], "kh": 3, "kw": 3, "sh": 1, "sw": 1, "ph": 1, "pw": 1, "dh": 1, "dw": 1, "act": act, "bias": false}})
+                        }
+                    })
+                    .collect();
+                let (loops, isk, osk) = (rng.range(1, 3) as usize, rng.below(2) == 0, rng.below(2) == 0);
+                let acc = *rng.pick(&["add", "subtract", "overwrite"]);
+                let desc = json!({"kind": "feedback", "loops": loops, "inskips": isk, "outskips": osk, "acc": acc,
+                                  "layers": items.iter().map(|it| desc_from_hp(str_of(it, "kind"), &it["hp"])).collect::<Vec<_>>()});
+                match guarded(|| nets::add_layer(&mut net, &desc)) {
+                    Ok(()) => {
+                        let idx = net.layers.len() - 1;
+                        // sparse integer parameters, the same for every unrolled copy
+                        let mut params_json = Vec::new();
+                        {
+                            let inner = verif::inner_layers_mut(&mut net.layers[idx]);
+                            let total = inner.len();
+                            for j in 0..nitems {
+                                let p = verif::layer_params(&inner[j]);
+                                let mut f = || sparse_int(&mut rng);
+                                let newp = verif::Params {
+                                    kind: p.kind,
+                                    weights: p.weights.as_ref().map(|w| w.iter().map(|r| r.iter().map(|_| f()).collect()).collect()),
+                                    bias: p.bias.as_ref().map(|b| b.iter().map(|_| f()).collect()),
+                                    kernels: p.kernels.as_ref().map(|k| k.iter().map(|a| a.iter().map(|b| b.iter().map(|c| c.iter().map(|_| f()).collect()).collect()).collect()).collect()),
+                                };
+                                let mut c = j;
+                                while c < total {
+                                    verif::set_layer(&mut inner[c], newp.clone());
+                                    c += nitems;
+                                }
+                                params_json.push(layer_params_json(&inner[j]));
+                            }
+                        }
+                        let (ain, aout) = announced(&net, idx).unwrap_or((vec![], vec![]));
+                        trace.push(json!({"event": "AddBlock", "items": items, "loops": loops, "inskips": isk, "outskips": osk, "acc": acc,
+                                          "outcome": "ok", "in": ain, "out": aout, "params": params_json}));
+                        out = aout;
+                        accepted += 1;
+                        has_block = true;
+                    }
+                    Err(_) => {
+                        trace.push(json!({"event": "AddBlock", "items": items, "loops": loops, "inskips": isk, "outskips": osk, "acc": acc,
+                                          "outcome": "panic", "in": [], "out": [], "params": []}));
+                    }
+                }
+                continue;
+            }
             let kind = *rng.pick(&["dense", "dense", "conv", "conv", "deconv", "pool"]);
             // shape the layer would read (flat -> 1 x r x r when square); non-square flats are issued on purpose sometimes
             let (h, w) = if out.len() == 3 {
@@ -727,7 +786,9 @@ pub fn record_net(seed: u64, tier: &str, trace: &mut Vec<Value>, rep: &mut Repor
         let count_in = |net: &Network, i: usize| -> usize { announced(net, i).map(|a| a.0.iter().product()).unwrap_or(0) };
         let mut plain = true;
         let mut has_loop = false;
-        if n >= 2 && rng.below(2) == 0 {
+        if has_block {
+            // blocks cannot be inside loops; keep these sessions plain (forward passes only)
+        } else if n >= 2 && rng.below(2) == 0 {
             for _ in 0..2 {
                 let a = rng.below(n as u64) as usize;
                 let b = a + rng.below((n - a) as u64) as usize;
@@ -775,7 +836,7 @@ pub fn record_net(seed: u64, tier: &str, trace: &mut Vec<Value>, rep: &mut Repor
                         break; // outside the exact integer range: not logged
                     }
                     trace.push(json!({"event": "Forward", "x": ints_json(&x), "posts": post[1..].iter().map(ints_json).collect::<Vec<_>>()}));
-                    if plain && !has_loop {
+                    if plain && !has_loop && !has_block {
                         let last = post.last().unwrap();
                         let g = {
                             let dims = data_dims(&last.data);
